@@ -111,6 +111,23 @@ pub fn vx_job_values(m: &HashMap<i32, Job>) -> (r: Vec<Job>)
     ensures r@.len() == m@.dom().len(), forall|i: int| 0 <= i < r@.len() ==> m@.contains_key((#[trigger] r@[i]).id) && m@[r@[i].id] == r@[i]
 { unimplemented!() }
 pub uninterp spec fn spec_job_line(j: Job, trim: bool) -> Seq<char>;
+// ---- jobc::get_job_line (repair dcb6472): the command text is shortened at a character boundary (C05: String::truncate panics anywhere else) ----
+pub uninterp spec fn spec_byte_len(s: Seq<char>) -> int;
+pub uninterp spec fn spec_is_boundary(s: Seq<char>, n: int) -> bool;
+#[verifier::external_body]
+pub fn vx_byte_len(s: &String) -> (r: usize) ensures r as int == spec_byte_len(s@) { s.len() }
+// str::is_char_boundary: index 0 and the length are boundaries (std)
+#[verifier::external_body]
+pub fn vx_is_char_boundary(s: &String, n: usize) -> (r: bool) ensures r == spec_is_boundary(s@, n as int), n == 0 ==> r { s.is_char_boundary(n) }
+#[verifier::external_body]
+pub fn vx_truncate(s: &mut String, n: usize)
+    requires spec_is_boundary(old(s)@, n as int) && n as int <= spec_byte_len(old(s)@),   //@L C05+C07.job_line.the_command_text_is_cut_at_a_character_boundary
+{ s.truncate(n) }
+#[verifier::external_body]
+pub fn vx_push_dots(s: &mut String) { s.push_str(" ..."); }
+#[verifier::external_body]
+pub fn vx_job_line_text(id: i32, gid: i32, status: &String, cmd: &String, amp: bool) -> (r: String) { unimplemented!() }
+//@FN get_job_line_real
 #[verifier::external_body]
 pub fn get_job_line(job: &Job, trim: bool) -> (r: String) ensures r@ == spec_job_line(*job, trim) { unimplemented!() }
 pub uninterp spec fn spec_join_nl(v: Seq<Seq<char>>) -> Seq<char>;
@@ -197,8 +214,18 @@ jobs_run = Fn('src/builtins/jobs.rs', 'run', rename='jobs_run', ret='r',
            'assert forall|i: int| 0 <= i < lines@.len() implies sh.jobs@.contains_key((#[trigger] __jv@[i]).id) && sh.jobs@[__jv@[i].id] == __jv@[i] && strs(lines@)[i] == spec_job_line(__jv@[i], wants_trim(*cmd)) by { assert(strs(lines@)[i] == lines@[i]@); } '
            'assert(lines_of_w(sh.jobs@, strs(lines@), wants_trim(*cmd), __jv@));'},
 )
+job_line = Fn('src/jobc.rs', 'get_job_line', rename='get_job_line_real', ret='r', props=('C05', 'C07'),
+    pre_rewrites=[Rw('types::Job', 'Job', rule='R0'),
+                  Rw('cmd.len() > 50', 'vx_byte_len(&cmd) > 50', rule='R12', why='String::len (bytes) through a shim'),
+                  Rw('!cmd.is_char_boundary(end)', '!vx_is_char_boundary(&cmd, end)', rule='R12', required=False, why='str::is_char_boundary through a shim (0 is a boundary)'),
+                  Rw(r'cmd\.truncate\(([^)]*)\);', r'vx_truncate(&mut cmd, \1);', regex=True, rule='R12', why='String::truncate through a shim that REQUIRES a character boundary'),
+                  Rw('cmd.push_str(" ...");', 'vx_push_dots(&mut cmd);', rule='R12'),
+                  Rw(r'let _cmd = if job\.is_bg && job\.status == "Running" \{[\s\S]*?\};\s*(/\*@L\d+\*/\s*)*format!\("\[\{\}\] \{\}  \{\}   \{\}", job\.id, job\.gid, job\.status, _cmd\)',
+                     'vx_job_line_text(job.id, job.gid, &job.status, &cmd, job.is_bg && vx_streq(&job.status, &"Running"))', regex=True, rule='R4', why='the text of the line (format!): opaque')],
+    loops={0: Loop(invariant=[('C05.inv.job_line.cut', 'end <= 50 && spec_byte_len(cmd@) > 50')], decreases='end')},
+)
 UNIT = Unit('U-JCMD', TEMPLATE,
-            fns=[jobs_run, bg_run, fg_run, Fn('src/types.rs', 'new', impl='CommandResult'), Fn('src/types.rs', 'error', impl='CommandResult')],
+            fns=[job_line, jobs_run, bg_run, fg_run, Fn('src/types.rs', 'new', impl='CommandResult'), Fn('src/types.rs', 'error', impl='CommandResult')],
             types=[TypeItem('src/types.rs', 'struct', 'Command'), TypeItem('src/types.rs', 'struct', 'CommandLine'), TypeItem('src/types.rs', 'struct', 'CommandResult'),
                    TypeItem('src/types.rs', 'struct', 'Job')],
             props=('C07', 'C06', 'C05'))
